@@ -859,6 +859,7 @@ static void enumerate(bool thorough, const Emit& emit, std::map<std::string, lon
     for (int tv = 0; tv < nt; ++tv) for (unsigned h : sup) for (int hf = 1; hf <= 2; ++hf) for (int hd = 0; hd <= (h ? 1 : 0); ++hd) {
       if (!thorough && n == 3 && hd && __builtin_popcount(h) > 2) continue;
       if (hd && hf == 1 && n == 3) continue;      // duplicated entry x declared format jointly only for n<=2
+      if (hd && n == 3 && __builtin_popcount(h) > 3 && !red.count(h)) continue;   // n=3 duplicates: supports with <=3 entries + structured
       std::vector<int> fmts = {1};
       if (thorough && (n < 3 || red.count(h))) fmts = {1, 0, 2};
       for (int fm : fmts) {
